@@ -39,8 +39,8 @@ c = C.new {x = 1}
 
 
 class Op:
-    def __init__(self, name, text, moves, fn=True, twice=False, core=False):
-        self.name, self.text, self.moves, self.fn, self.twice, self.core = name, text, moves, fn, twice, core
+    def __init__(self, name, text, moves, fn=True, twice=False, core=False, uses=True):
+        self.name, self.text, self.moves, self.fn, self.twice, self.core, self.uses = name, text, moves, fn, twice, core, uses
 
 
 OPS = [
@@ -85,7 +85,13 @@ OPS = [
     Op("len", "{n} = len {x}", False),
     Op("equals", "{n} = {x} == {x}", False),
     Op("bare", "{x}", False),
+    # --- not a use at all: the statement only binds the NAME {x} again in a nested scope (parameter, local variable,
+    #     local subroutine of an inner subroutine); whatever happened to the outer {x} stays as it was
+    Op("shadow-param", "{n} {x}: Int = {x} + 1", False, uses=False),
+    Op("shadow-local", "{n}() =\n    {x} = 1\n    {x}", False, uses=False),
+    Op("shadow-subr", "{n}() =\n    {x}() = 1\n    {x}()", False, uses=False),
 ]
+SHADOW = ["shadow-param", "shadow-local"]
 OP = {o.name: o for o in OPS}
 DEF_TEXT = "{x} = ![1]"
 
@@ -125,12 +131,13 @@ def sequences(opnames, nvars, maxlen):
     yield from rec([], [])
 
 
-def stmt_text(st, k):
+def stmt_text(st, k, tag=""):
+    """tag: suffix that makes the names of one sequence unique when several sequences share a module"""
     if st[0] == "def":
-        return DEF_TEXT.format(x=st[1])
+        return DEF_TEXT.format(x=st[1] + tag)
     if st[0] == "rebind-other":
-        return f"{st[2]} = {st[1]}"
-    return OP[st[0]].text.format(x=st[1], n=f"t{k}")
+        return f"{st[2]}{tag} = {st[1]}{tag}"
+    return OP[st[0]].text.format(x=st[1] + tag, n=f"t{k}{tag}")
 
 
 def stmt_name(st):
@@ -145,41 +152,56 @@ def legal_in(seq, scope):
     return True
 
 
+def render_many(group):
+    """group: [(seq, scope)]; every sequence gets its own names (suffix _<j>) and its own subroutine, so the sequences of
+    one module cannot influence each other.  returns (source, [[(first line, last line) of statement i] per sequence],
+    [(first line, last line) of the whole block of each sequence])"""
+    lines = PRELUDE.rstrip("\n").split("\n")
+    ats, spans = [], []
+    single = len(group) == 1
+    for j, (seq, scope) in enumerate(group):
+        tag = "" if single else f"_{j}"
+        stmts = [stmt_text(st, k, tag) for k, st in enumerate(seq)]
+        at = []
+        start = len(lines) + 1
+
+        def put(body, indent):
+            for s in body:
+                first = len(lines) + 1
+                for part in s.split("\n"):
+                    lines.append(indent + part)
+                at.append((first, len(lines)))
+
+        if scope == "module":
+            put(stmts, "")
+        elif scope == "procedure":
+            lines.append(f"main{tag}!() =")
+            put(stmts, "    ")
+            lines.extend(["    0", f"r{tag} = main{tag}!()"])
+        elif scope == "function":
+            lines.append(f"f{tag}() =")
+            put(stmts, "    ")
+            lines.extend(["    0", f"r{tag} = f{tag}()"])
+        elif scope == "lambda-block":
+            lines.append("if! True, do!:")
+            put(stmts, "    ")
+            lines.extend(["    print! 0"])
+        elif scope == "outer-variable":
+            put(stmts[:1], "")
+            lines.append(f"main{tag}!() =")
+            put(stmts[1:], "    ")
+            lines.extend(["    0", f"r{tag} = main{tag}!()"])
+        else:
+            raise ValueError(scope)
+        ats.append(at)
+        spans.append((start, len(lines)))
+    return "\n".join(lines) + "\n", ats, spans
+
+
 def render(seq, scope):
     """returns (source, [(first line, last line) of statement i])"""
-    lines = PRELUDE.rstrip("\n").split("\n")
-    stmts = [stmt_text(st, k) for k, st in enumerate(seq)]
-    at = []
-
-    def put(body, indent):
-        for s in body:
-            first = len(lines) + 1
-            for part in s.split("\n"):
-                lines.append(indent + part)
-            at.append((first, len(lines)))
-
-    if scope == "module":
-        put(stmts, "")
-    elif scope == "procedure":
-        lines.append("main!() =")
-        put(stmts, "    ")
-        lines += ["    0", "r = main!()"]
-    elif scope == "function":
-        lines.append("f() =")
-        put(stmts, "    ")
-        lines += ["    0", "r = f()"]
-    elif scope == "lambda-block":
-        lines.append("if! True, do!:")
-        put(stmts, "    ")
-        lines += ["    print! 0"]
-    elif scope == "outer-variable":
-        put(stmts[:1], "")
-        lines.append("main!() =")
-        put(stmts[1:], "    ")
-        lines += ["    0", "r = main!()"]
-    else:
-        raise ValueError(scope)
-    return "\n".join(lines) + "\n", at
+    src, ats, _ = render_many([(seq, scope)])
+    return src, ats[0]
 
 
 # ------------------------------------------------------------------------------------------------
@@ -200,6 +222,9 @@ def model(seq):
             out.append((uam, by))
             continue
         o = OP[st[0]]
+        if not o.uses:
+            out.append((False, None))
+            continue
         if x in moved:
             out.append((True, moved[x]))
             continue
@@ -250,12 +275,15 @@ def space(tier):
     """list of (family, opnames, nvars, maxlen, scopes)"""
     core = [o.name for o in OPS if o.core]
     broad = [o.name for o in OPS]
+    shadowed = core + SHADOW  # a move, then a nested re-binding of the name, then a use needs four statements
     if tier == "quick":
-        # sized for < 60 s: one program costs 0.15-0.25 s of CPU (17-line prelude with a class, dev profile)
-        return [("broad-1var-len3", broad, 1, 3, ["module", "outer-variable"]), ("broad-1var-len2", broad, 1, 2, SCOPES),
-                ("core-2var-len3", core, 2, 3, SCOPES), ("core-1var-len4", core, 1, 4, ["procedure"])]
+        # sized for < 60 s on a moderately loaded machine: 10 sequences per module, a module costs ~0.8 CPU-s
+        return [("broad-1var-len3", broad, 1, 3, ["module"]), ("broad-1var-len2", broad, 1, 2, SCOPES),
+                ("core-2var-len3", core, 2, 3, SCOPES), ("core+shadow-1var-len4", shadowed, 1, 4, ["procedure"]),
+                ("core+shadow-1var-len3", shadowed, 1, 3, ["outer-variable", "function", "lambda-block"])]
     return [("broad-1var-len4", broad, 1, 4, SCOPES), ("core-2var-len4", core, 2, 4, SCOPES),
-            ("broad-2var-len3", broad, 2, 3, SCOPES), ("core-2var-len5", core, 2, 5, ["module"])]
+            ("broad-2var-len3", broad, 2, 3, SCOPES), ("core-2var-len5", core, 2, 5, ["module"]),
+            ("core+shadow-2var-len4", shadowed, 2, 4, SCOPES)]
 
 
 def programs(tier):
@@ -296,28 +324,85 @@ def judge(seq, sc, r, at):
     return mism, probs
 
 
-def run(chk):
-    progs = programs(chk.tier)
-    keys = list(progs.keys())
-    items = []
-    rendered = {}
-    for idx, (seq, sc) in enumerate(keys):
-        src, at = render(seq, sc)
-        rendered[idx] = (src, at)
-        items.append({"id": f"p{idx}", "src": src, "mode": "check"})
-    # the two fixed layouts of the repository, as an anchor for the reference model (exact MoveError lines)
-    pinned = {"examples/move_check.er": [6], "tests/should_err/move.er": [6, 12], "tests/should_ok/move.er": []}
+PACK = 10  # sequences per module (a compile costs ~1 s + ~0.1 s per statement: packing is ~4x cheaper than one module each)
+
+
+def flags(r, at):
+    """which statements carry a MoveError, and the error lines outside every statement"""
+    lines = {e["loc"][0] for e in r.get("errors", [])}
+    return [any(a <= ln <= b for ln in lines) for a, b in at], sorted(ln for ln in lines if not any(a <= ln <= b for a, b in at))
+
+
+def compile_all(chk, keys, pinned):
+    """returns {(seq, sc): (result restricted to the sequence, statement lines)}, pinned results, stats.
+    Sequences are packed PACK per module with names of their own; MoveErrors are collected in one pass and located by
+    line.  A module that shows anything but MoveErrors inside the blocks (another diagnostic, a crash, an error outside
+    every block) is not trusted: its sequences are compiled again one module each."""
+    groups = [keys[i:i + PACK] for i in range(0, len(keys), PACK)]
+    items, meta = [], {}
+    for gi, g in enumerate(groups):
+        src, ats, spans = render_many(g)
+        meta[gi] = (ats, spans)
+        items.append({"id": f"g{gi}", "src": src, "mode": "check"})
     for k, (rel, _) in enumerate(pinned.items()):
         with open(f"{vlib.REPO}/{rel}") as f:
             items.append({"id": f"pin{k}", "src": f.read(), "mode": "check"})
-    res, _ = vlib.compile_batch(items, "c23", chunk=120, per_item_ms=60000)
-    # a watchdog kill on a loaded machine is not a verdict: such items are re-run alone with a long cap
-    again = [it for it in items if res.get(it["id"], {}).get("status") in ("hang", "abort", None)]
-    if again:
-        res2, _ = vlib.compile_batch(again, "c23retry", chunk=1, per_item_ms=600000)
-        res.update(res2)
+    # the smallest bound is also compiled one sequence per module: both routes must agree (batch cross-check)
+    small = [k for k in keys if len(k[0]) <= 2]
+    for si, (seq, sc) in enumerate(small):
+        items.append({"id": f"s{si}", "src": render(seq, sc)[0], "mode": "check"})
+
+    def batch(its, tag):
+        res, _ = vlib.compile_batch(its, tag, chunk=6, per_item_ms=120000)
+        # a watchdog kill on a loaded machine is not a verdict: such items are re-run alone with a long cap
+        again = [it for it in its if res.get(it["id"], {}).get("status") in ("hang", "abort", None)]
+        if again:
+            res2, _ = vlib.compile_batch(again, tag + "retry", chunk=1, per_item_ms=600000)
+            res.update(res2)
+        return res
+
+    res = batch(items, "c23")
+    out = {}
+    singles = []
+    for gi, g in enumerate(groups):
+        r = res.get(f"g{gi}")
+        ats, spans = meta[gi]
+        errs = (r or {}).get("errors", []) if (r or {}).get("status") == "err" else []
+        clean = r is not None and r["status"] in ("ok", "err") and all(e["kind"] == "MoveError" for e in errs) \
+            and all(any(a <= e["loc"][0] <= b for a, b in spans) for e in errs) and (r["status"] == "ok" or errs)
+        if not clean:
+            singles.extend(g)
+            continue
+        for key, at, (a, b) in zip(g, ats, spans):
+            mine = [e for e in errs if a <= e["loc"][0] <= b]
+            out[key] = ({"status": "err" if mine else "ok", "errors": mine}, at)
+    if singles:
+        res1 = batch([{"id": f"x{i}", "src": render(seq, sc)[0], "mode": "check"} for i, (seq, sc) in enumerate(singles)], "c23single")
+        for i, (seq, sc) in enumerate(singles):
+            out[(seq, sc)] = (res1.get(f"x{i}"), render(seq, sc)[1])
+    agree = 0
+    for si, key in enumerate(small):
+        r1 = res.get(f"s{si}")
+        r2, at2 = out[key]
+        if r1 is None or r2 is None or r1.get("status") not in ("ok", "err") or r2.get("status") not in ("ok", "err"):
+            continue
+        if r1["status"] == r2["status"] and flags(r1, render(*key)[1]) == flags(r2, at2):
+            agree += 1
+        else:
+            chk.machinery(f"batch cross-check: {seq_str(key[0])} in {key[1]} is judged differently alone and packed")
+    stats = {"modules": len(groups), "sequences_per_module": PACK, "sequences_recompiled_alone": len(singles),
+             "batch_crosscheck": f"{agree}/{len(small)} sequences of <=2 statements agree between one-per-module and packed compilation"}
+    return out, {k: res.get(f"pin{k}", {}) for k in range(len(pinned))}, stats
+
+
+def run(chk):
+    progs = programs(chk.tier)
+    keys = list(progs.keys())
+    # the two fixed layouts of the repository, as an anchor for the reference model (exact MoveError lines)
+    pinned = {"examples/move_check.er": [6], "tests/should_err/move.er": [6, 12], "tests/should_ok/move.er": []}
+    results, pres, cstats = compile_all(chk, keys, pinned)
     for k, (rel, want) in enumerate(pinned.items()):
-        r = res.get(f"pin{k}", {})
+        r = pres[k]
         got = sorted({e["loc"][0] for e in r.get("errors", []) if e["kind"] == "MoveError"})
         other = [e["kind"] for e in r.get("errors", []) if e["kind"] != "MoveError"]
         if got != want or other or r.get("status") not in ("ok", "err"):
@@ -329,8 +414,8 @@ def run(chk):
     fam_count = {}
     unclean = {}
     for idx, (seq, sc) in enumerate(keys):
-        r = res.get(f"p{idx}")
-        src, at = rendered[idx]
+        r, at = results.get((seq, sc), (None, None))
+        src = render(seq, sc)[0]
         fc = fam_count.setdefault(progs[(seq, sc)], {"programs": 0, "model_rejects": 0})
         fc["programs"] += 1
         if r is None:
@@ -405,6 +490,7 @@ def run(chk):
         "families": fam_count, "programs_model_rejects": premise, "programs_model_accepts": n - premise,
         "tool_accepted": accepted, "tool_rejected_with_move_errors_only": rejected,
         "spurious_dominated_by_shorter_sequence": dominated,
+        "compilation": cstats,
         "not_type_clean_not_judged": {msg[:120]: len(where) for msg, where in sorted(unclean.items())},
         "alphabet": {o.name: o.text for o in OPS}, "scopes": SCOPES, "exhaustive": True,
     })
